@@ -179,7 +179,7 @@ func execC14(sc c14Scenario) (res pbt.Result) {
 					if !a.UpdatedAt.Equal(want.UpdatedAt) || !a.EndsAt.Equal(want.EndsAt) || a.Annotations["v"] != want.Annotations["v"] {
 						res.Add(pbt.V("stale-version-in-group", "after all %d back-to-back updates were processed, group %s holds version v=%s (end %s) of %s but the last submitted version is v=%s (end %s)",
 							len(sc.Versions), g.GroupKey, a.Annotations["v"], a.EndsAt.Format("15:04:05.000000"), ref.LabelKey(ls), want.Annotations["v"], want.EndsAt.Format("15:04:05.000000")).
-							With("reordered", reordered))
+							With("reordered", reordered).With("held_resolved", a.Resolved()).With("want_firing", !want.Resolved()))
 					}
 				}
 			}
@@ -432,6 +432,33 @@ func TestC14Restart(t *testing.T) {
 			}
 			res.Violations = kept
 			res.NonTrivial = slices.Contains(res.Classes, "snapshot-version-parked")
+			return res
+		},
+	})
+}
+
+// C05Order: the C14Order schedules judged for C05's clause "an alert that fires again stays in its group and is
+// reported firing at the next flush; resolved is reported only when true": when the last submitted version of an
+// alert is firing, no aggregation group may hold it as resolved once every update has been processed (the next flush
+// would report it resolved and drop it), whatever the order in which the ingestion workers proceed.
+func TestC05Order(t *testing.T) {
+	pbt.Run(t, pbt.Spec[c14Scenario]{
+		Property: "C05", Name: "C05Order",
+		Rule: "the scenarios of C14Order (2-6 versions - refresh / resolve / re-fire - of 1-3 label sets submitted back to back; every ingestion worker parks between receive and route and a generated choice list decides the order in which they proceed). Judged here: at quiescence no aggregation group holds as resolved an alert whose last submitted version is firing (kind resolved-held-although-refired), and every submitted alert is held by a group. Non-trivial: some alert has >=2 versions and at least one worker was released before an earlier-parked one.",
+		Gen:  genC14,
+		Exec: func(sc c14Scenario) pbt.Result {
+			res := execC14(sc)
+			kept := res.Violations[:0]
+			for _, v := range res.Violations {
+				switch {
+				case v.Kind == "stale-version-in-group" && v.Facts["held_resolved"] == true && v.Facts["want_firing"] == true:
+					v.Kind = "resolved-held-although-refired"
+					kept = append(kept, v)
+				case v.Kind == "alert-missing-from-groups" || v.Kind == "harness":
+					kept = append(kept, v)
+				}
+			}
+			res.Violations = kept
 			return res
 		},
 	})
